@@ -3708,12 +3708,8 @@ impl CanonicalizeContext {
 				// debug!("shift_stack: after adding right fence to mrow:\n{}", mml_to_string(&mrow));
 				new_current_op = OperatorPair::new();							// treat matched brackets as operand
 				new_current_child = mrow;	
-				let children = mrow.children();
-				// debug!("looking for left fence: len={}, {:#?}", children.len(), self.find_operator(as_element(children[0]),None, None, Some(as_element(children[1])) ));
-				if children.len() == 2 && (name(&as_element(children[0])) != "mo" ||
-				   !CanonicalizeContext::find_operator(Some(self), as_element(children[0]),
-								None, Some(as_element(children[0])), Some(mrow) ).is_left_fence()) {
-					// the mrow did *not* start with an open (hence no push)
+				if parse_stack.is_empty() {
+					// the mrow did *not* start with an open (hence no push): the bottom of the stack was popped
 					// since parser really wants balanced parens to keep stack state right, we do a push here
 					parse_stack.push( StackInfo::new(mrow.document()) );
 				} else {
